@@ -1,3 +1,4 @@
+import NitroVerif.Lemmas.OptResult
 import NitroVerif.Model.Opt
 import NitroVerif.Spec.Opt
 
@@ -190,5 +191,69 @@ theorem parse_outcomes (d : Decl) (env : Env) (argv : List Str) :
       | ok s2 => simp
   · have : consistent d = false := by simpa using hc
     simp [this]
+
+
+/-- **Exactly when parsing fails.**  For a consistent declaration with distinct names, `parse` raises
+the user-input error if and only if the argument vector has no explanation (an unknown name or
+letter, a value missing after a value-taking option, `=value` on a toggle, a malformed dash token
+ahead of `--` — the cases in which `explainTok` is `none`), or its explanation has more positionals
+than accepted, or gives a single-valued option two values or leaves a required option without any
+source, or negates a toggle that is not reversible or also occurs positively, or leaves a toggle to
+an environment word outside the vocabulary. -/
+theorem parse_fails_exactly_when (d : Decl) (hn : (allNames d).Nodup) (hc : consistent d = true) (env : Env)
+    (argv : List Str) :
+    parse d env argv = .error .user ↔
+      explain d argv = none ∨
+      ∃ items, explain d argv = some items ∧
+        (tooMany d (positionalsOf items).length = true ∨
+         (∃ o ∈ d.opts, interpOpt env items o = .error .user) ∨
+         (∃ m ∈ d.muls, interpMul env items m = .error .user) ∨
+         (∃ t ∈ d.togs, interpTog env items t = .error .user)) := by
+  cases hex : explain d argv with
+  | none => simp [parse_of_unexplained d hn hc env argv hex]
+  | some items =>
+    rw [parse_of_explain d hn hc env argv items hex]
+    simp only [false_or, Option.some.injEq, exists_eq_left', reduceCtorEq]
+    constructor
+    · intro h
+      exact (interp_err_iff d env items).mp ⟨_, h⟩
+    · intro h
+      obtain ⟨e, he⟩ := (interp_err_iff d env items).mpr h
+      have hp := parse_of_explain d hn hc env argv items hex
+      have := (parse_outcomes d env argv).2 hc
+      rw [hp, he] at this
+      rcases this with ⟨r, hr⟩ | hu
+      · simp at hr
+      · rw [he]; exact hu
+
+/-- the conditions under which one option-like token has no explanation, spelled out for a long token -/
+theorem explainLong_none_iff (d : Decl) (n : Str) (v next : Option Str) :
+    explainLong d n v next = none ↔
+      (isValueOptName d n = true ∧ v = none ∧ (next = none ∨ ∃ nx, next = some nx ∧ isValueTok nx = false)) ∨
+      (isValueOptName d n = false ∧ isTogName d n = true ∧ v.isSome = true) ∨
+      (isValueOptName d n = false ∧ isTogName d n = false ∧ (noPrefix.isPrefixOf n && isTogName d (n.drop 3)) = true ∧
+        v.isSome = true) ∨
+      (isValueOptName d n = false ∧ isTogName d n = false ∧ (noPrefix.isPrefixOf n && isTogName d (n.drop 3)) = false) := by
+  unfold explainLong explainValue
+  by_cases h1 : isValueOptName d n = true
+  · simp only [h1, if_true]
+    cases v with
+    | some v' => simp
+    | none =>
+      cases next with
+      | none => simp
+      | some nx => by_cases h : isValueTok nx = true <;> simp [h]
+  · have h1' : isValueOptName d n = false := by simpa using h1
+    simp only [h1', Bool.false_eq_true, if_false, false_and, false_or, true_and]
+    by_cases h2 : isTogName d n = true
+    · simp only [h2, if_true]
+      cases v <;> simp
+    · have h2' : isTogName d n = false := by simpa using h2
+      simp only [h2', Bool.false_eq_true, if_false, false_and, false_or, true_and]
+      by_cases h3 : (noPrefix.isPrefixOf n && isTogName d (n.drop 3)) = true
+      · simp only [h3, if_true]
+        cases v <;> simp
+      · have h3' : (noPrefix.isPrefixOf n && isTogName d (n.drop 3)) = false := by simpa using h3
+        simp [h3']
 
 end NitroVerif.Props.C04
